@@ -4,9 +4,13 @@
 From Coq Require Import List NArith ZArith Extraction ExtrOcamlBasic.
 From CelloV Require Import Generated HashModel.
 
-Definition h_data : list N -> N := hash_data hash_m hash_r hash_seed.
+Definition h_data : list N -> N := hash_data hash_m hash_r hash_seed hash_tail_shape.
 Definition h_cmp : value -> value -> option Z := v_cmp table_cmp_by_lookup.
-Definition h_hash : value -> N := v_hash hash_m hash_r hash_seed float_hash_normalises_zero.
+Definition h_hash : value -> N := v_hash h_data float_hash_shape.
+(* memswap as the source has it (plan read from the text) on two byte images *)
+Definition h_memswap (a b : list N) : list N * list N := run_plan memswap_plan (length a) a b.
+(* Float_Cmp in the shape the source has *)
+Definition h_float_cmp : N -> N -> Z := float_cmp_of_form float_cmp_form.
 Definition h_copy : value -> option value := v_copy.
 Definition h_assign : value -> value -> option value := v_assign.
 Definition h_swap : value -> value -> option (value * value) := v_swap.
@@ -17,4 +21,4 @@ Definition n_double (x : N) : N := N.double x.
 Definition n_succ_double (x : N) : N := N.succ_double x.
 
 Extraction Language OCaml.
-Extraction "../ocaml/gen/Hash.ml" h_data h_cmp h_hash h_copy h_assign h_swap h_wf z_ltb n_eqb n_double n_succ_double.
+Extraction "../ocaml/gen/Hash.ml" h_data h_cmp h_hash h_memswap h_float_cmp h_copy h_assign h_swap h_wf z_ltb n_eqb n_double n_succ_double.
